@@ -72,6 +72,8 @@ pub struct St {
 
 pub struct Slot {
     owner: Pubkey,
+    /// who receives the output of a completed order (input funds of an order that did not complete go back to the owner)
+    receiver: Pubkey,
     market: usize,
     side: Side,
     increase: bool,
@@ -247,9 +249,9 @@ impl Machine for Perp {
                 }
                 let unreachable = sl.unreachable_price.then_some(if sl.side.is_long == sl.increase { 1u128 } else { u128::MAX / 4 });
                 let r = if sl.increase {
-                    w.create_increase_with(&mut n.db, m, sl.owner, sl.nonce, sl.side, sl.collateral, sl.size, unreachable)
+                    w.create_increase_with(&mut n.db, m, sl.owner, sl.receiver, sl.nonce, sl.side, sl.collateral, sl.size, unreachable)
                 } else {
-                    w.create_decrease_with(&mut n.db, m, sl.owner, sl.nonce, sl.side, sl.collateral, sl.size, unreachable)
+                    w.create_decrease_with(&mut n.db, m, sl.owner, sl.receiver, sl.nonce, sl.side, sl.collateral, sl.size, unreachable)
                 };
                 if r.is_ok() {
                     n.snap[i] = Snapshot { escrow: self.escrow(&n.db, sl) };
@@ -266,7 +268,7 @@ impl Machine for Perp {
                 let sl = &self.slots[i];
                 let m = self.markets()[sl.market];
                 let by = self.key_of(sl.owner, who);
-                Some(w.close_order(&mut n.db, m, sl.owner, sl.nonce, sl.side, sl.increase, by))
+                Some(w.close_order(&mut n.db, m, sl.owner, sl.receiver, sl.nonce, sl.side, sl.increase, by))
             }
             Act::Price(k) => {
                 n.price = k;
@@ -384,9 +386,20 @@ impl Machine for Perp {
                     }
                     if res.is_ok() {
                         let (before, after) = (self.holdings(&s.db, &sl.owner), self.holdings(&n.db, &sl.owner));
+                        let (rbefore, rafter) = (self.holdings(&s.db, &sl.receiver), self.holdings(&n.db, &sl.receiver));
                         let esc = self.escrow(&s.db, sl);
-                        if (after.0, after.1) != (before.0 + esc.0, before.1 + esc.1) {
-                            out.fail("C23/escrow_not_returned", format!("{a:?} ({:?}): owner held {before:?}, escrow {esc:?}, owner now holds {after:?}", s.phase[i]));
+                        // the input funds of an order that did not complete go back to the owner; what a completed order
+                        // produced goes to the receiver
+                        let to_owner = s.phase[i] != Phase::Completed || sl.receiver == sl.owner;
+                        let ok = if sl.receiver == sl.owner {
+                            (after.0, after.1) == (before.0 + esc.0, before.1 + esc.1)
+                        } else if to_owner {
+                            (after.0, after.1) == (before.0 + esc.0, before.1 + esc.1) && (rafter.0, rafter.1) == (rbefore.0, rbefore.1)
+                        } else {
+                            (rafter.0, rafter.1) == (rbefore.0 + esc.0, rbefore.1 + esc.1) && (after.0, after.1) == (before.0, before.1)
+                        };
+                        if !ok {
+                            out.fail("C23/escrow_not_returned", format!("{a:?} ({:?}): escrow {esc:?}; owner held {before:?} and now holds {after:?}; receiver held {rbefore:?} and now holds {rafter:?}", s.phase[i]));
                         }
                         if matches!(s.phase[i], Phase::Pending | Phase::Cancelled) && esc != s.snap[i].escrow {
                             out.fail("C23/escrow_not_returned", format!("{a:?} ({:?}): escrow at close {esc:?}, at creation {:?}", s.phase[i], s.snap[i].escrow));
@@ -434,13 +447,13 @@ pub fn build(props: u32, th: bool) -> (Perp, St) {
     let short_a = Side { is_long: false, collateral_long: true };
     let positions = vec![(w.user, 0, long_b), (w.user2, 0, short_a), (w.user, 1, long_b)];
     let slots = vec![
-        Slot { owner: w.user, market: 0, side: long_b, increase: true, collateral: 120_000_000, size: 300 * UNIT, unreachable_price: false, nonce: [0x11; 32] },
-        Slot { owner: w.user, market: 0, side: long_b, increase: false, collateral: 0, size: 300 * UNIT, unreachable_price: false, nonce: [0x12; 32] },
-        Slot { owner: w.user2, market: 0, side: short_a, increase: true, collateral: 10_000_000, size: 400 * UNIT, unreachable_price: false, nonce: [0x13; 32] },
-        Slot { owner: w.user, market: 0, side: long_b, increase: false, collateral: 10_000_000, size: 100 * UNIT, unreachable_price: false, nonce: [0x14; 32] },
-        Slot { owner: w.user, market: 0, side: long_b, increase: true, collateral: 50_000_000, size: 100 * UNIT, unreachable_price: true, nonce: [0x15; 32] },
-        Slot { owner: w.user2, market: 0, side: short_a, increase: false, collateral: 0, size: 400 * UNIT, unreachable_price: false, nonce: [0x16; 32] },
-        Slot { owner: w.user, market: 1, side: long_b, increase: true, collateral: 60_000_000, size: 200 * UNIT, unreachable_price: false, nonce: [0x17; 32] },
+        Slot { owner: w.user, receiver: w.user, market: 0, side: long_b, increase: true, collateral: 120_000_000, size: 300 * UNIT, unreachable_price: false, nonce: [0x11; 32] },
+        Slot { owner: w.user, receiver: w.user, market: 0, side: long_b, increase: false, collateral: 0, size: 300 * UNIT, unreachable_price: false, nonce: [0x12; 32] },
+        Slot { owner: w.user2, receiver: w.user2, market: 0, side: short_a, increase: true, collateral: 10_000_000, size: 400 * UNIT, unreachable_price: false, nonce: [0x13; 32] },
+        Slot { owner: w.user, receiver: w.stranger, market: 0, side: long_b, increase: false, collateral: 10_000_000, size: 100 * UNIT, unreachable_price: false, nonce: [0x14; 32] },
+        Slot { owner: w.user, receiver: w.stranger, market: 0, side: long_b, increase: true, collateral: 50_000_000, size: 100 * UNIT, unreachable_price: true, nonce: [0x15; 32] },
+        Slot { owner: w.user2, receiver: w.user2, market: 0, side: short_a, increase: false, collateral: 0, size: 400 * UNIT, unreachable_price: false, nonce: [0x16; 32] },
+        Slot { owner: w.user, receiver: w.user, market: 1, side: long_b, increase: true, collateral: 60_000_000, size: 200 * UNIT, unreachable_price: false, nonce: [0x17; 32] },
     ];
     let n_slots = if th { NSLOT } else { 5 };
     let mut acts = vec![];
